@@ -20,7 +20,7 @@ from vlib.core import Stage, fail
 ID = "C15"
 MANIFEST = {
     "category": "exploration",
-    "text": "Schedule exploration by generated-input search with a differential oracle: deep AHBs (up to 40/100 nodes) with >= 3 free-text data elements whose inputs are pairwise different and whose expressions are dense in format constraints x content evaluation results x a schedule of yield counts consumed by the harness's asynchronous format-constraint / requirement-constraint evaluators, hints provider and package resolver. For every free-text element that the run reports, its ValidationResultInContext must equal the result of validate_data_element_freetext on a fresh copy of that element alone (nothing yields; segment status taken from the whole run); the multiset of (format-constraint key, text seen) pairs logged during the whole run must equal the union of the pairs logged by the single runs, i.e. every constraint was evaluated against its own element's input. A drawn subset of the format-constraint methods are plain functions that read the documented context variable themselves; in the element's own run every such evaluation must have seen exactly the element's input. Every visited segment with several free-text elements is also validated through validate_segment under the same schedule, below the status its group received; its rows must equal those of the whole run. A third of the data elements have no discriminator (None) or share one; rows are attributed to elements by position.",
+    "text": "Schedule exploration by generated-input search with a differential oracle: deep AHBs (up to 40/100 nodes) with >= 3 free-text data elements whose inputs are pairwise different and whose expressions are dense in format constraints x content evaluation results x a schedule of yield counts consumed by the harness's asynchronous format-constraint / requirement-constraint evaluators, hints provider and package resolver. For every free-text element that the run reports, its ValidationResultInContext must equal the result of validate_data_element_freetext on a fresh copy of that element alone (nothing yields; segment status taken from the whole run); the multiset of (format-constraint key, text seen) pairs logged during the whole run must equal the union of the pairs logged by the single runs, i.e. every constraint was evaluated against its own element's input. A drawn subset of the format-constraint methods are plain functions that read the documented context variable themselves; in the element's own run every such evaluation must have seen exactly the element's input. Every visited segment with several free-text elements is also validated through validate_segment under the same schedule, below the status its group received; its rows must equal those of the whole run. A third of the data elements have no discriminator (None) or share one; rows are attributed to elements by position. The same maus object is validated a second time; the rows of its free-text elements must equal those of the first validation.",
     "note": "Trusted: the schedule harness (vlib/sched.py); the format-constraint oracle function is pure in (key, text) and echoes the text, so a foreign input changes verdict or message. Interleavings are those of one asyncio event loop. Process configuration by shard (vlib/sut.py; recorded in replay files): plain / parse caches preheated beyond their size / warnings attributed to ahbicht raised as errors / logging fully enabled with every record rendered; one event loop per process or a new one per call; five process time zones; the hash seed is the shard number; namesakes of ahbicht's marshmallow schema classes are registered.",
     "technique": "property-based schedule exploration with a differential oracle (element inside the concurrent run vs the element alone) and a log invariant",
 }
@@ -73,7 +73,8 @@ def check(case):
     tree, cer, soll = case["tree"], case["cer"], case["soll"]
     sync_fc = case.get("sync_fc", ())
     schedule = _configure(tree, cer, case["delays"], sync_fc)
-    whole = sut.call(deep, vtree.build(tree), soll)
+    built = vtree.build(tree)
+    whole = sut.call(deep, built, soll)
     info = {"overlap": 0, "elements": 0, "nie": False}
     if not whole.ok:
         if whole.is_a(NotImplementedError):
@@ -86,6 +87,22 @@ def check(case):
         fail("rows", f"the result list does not report every visited node once, in document order: {error}; "
              f"rows {[r.discriminator for r in whole.value]}")  # fmt: skip
     whole_log = _fc_log(schedule)
+    # the same maus object validated a second time (an application that re-validates after every edit does that): every
+    # free-text element is again judged against its own entered input - value pools are left out, ahbicht documents that
+    # it overwrites an unexpected value there
+    _configure(tree, cer, case["delays"], sync_fc)
+    again = sut.call(deep, built, soll)
+    if not again.ok:
+        fail("raises", f"the second validation of the same DeepAnwendungshandbuch object raised {again!r}")
+    try:
+        rows_again = vtree.align(tree, again.value)
+    except vtree.Misaligned as error:
+        fail("rows", f"second validation of the same object: {error}")
+    for kind, node, _ in vtree.nodes(tree):
+        if kind == "ft" and node["d"] in rows and rows_again.get(node["d"]) != rows[node["d"]]:
+            fail("second-validation-differs", f"element {node['d']} with input {node['inp']!r} and expression {node['expr']['s']!r}: "
+                 f"first validation {rows[node['d']].validation_result}, second validation of the same object "
+                 f"{rows_again[node['d']].validation_result}")  # fmt: skip
     info["overlap"] = sum(1 for a, b in schedule.overlaps if a[0] == "fc" and b[0] == "fc" and a[2] != b[2])
     single_log = Counter()
     for kind, node, _ in vtree.nodes(tree):
